@@ -33,27 +33,12 @@ def implType (s : String) : Option Impl.Argon2.Params :=
   else if s == "id" then some Impl.Argon2.Params.argon2id
   else none
 
-/-- chain of the four setters; `none` = panic, `some (error e)` = the first `Err` -/
-def buildParams (base : Impl.Argon2.Params) (v t m p : Nat) : Option (Except Impl.Argon2.InvalidParam Impl.Argon2.Params) :=
-  match base.memory_kb' m with
-  | none => none
-  | some (.error e) => some (.error e)
-  | some (.ok s) =>
-  match s.iterations' t with
-  | none => none
-  | some (.error e) => some (.error e)
-  | some (.ok s) =>
-  match s.parallelism' p with
-  | none => none
-  | some (.error e) => some (.error e)
-  | some (.ok s) => s.version' v
-
 def hashImpl (ty v t m p tl pwd salt key aad : String) : Option String := do
   let base ← implType ty
   let v ← u32Arg v; let t ← u32Arg t; let m ← u32Arg m; let p ← u32Arg p
   let tl ← natArg tl
   let pwd ← hexArg pwd; let salt ← hexArg salt; let key ← hexArg key; let aad ← hexArg aad
-  match buildParams base v t m p with
+  match base.build v t m p with
   | none => pure "PANIC"
   | some (.error e) => pure s!"ERR:{errName e}"
   | some (.ok params) =>
